@@ -158,6 +158,9 @@ MUTANTS = [
      r"call\.reply_method_not_found\(String::from\(m\)\)", "call.reply_invalid_parameter(String::from(m))", {"C08"}),
     ("generator-wire-name-uses-first-method-only", "varlink_generator/src/lib.rs",
      r'let varlink_method_name = format!\("\{\}\.\{\}", idl\.name, t\.name\);', 'let varlink_method_name = format!("{}.{}", idl.name, t.name.to_lowercase());', {"C08"}),
+    ("parse-error-line-off-by-one", "varlink_parser/src/lib.rs",
+     r"nth\(e\.location\.line - 1\)\.unwrap\(\);", "nth(e.location.line).unwrap_or_default();", {"C12"}),
+    ("parse-error-column-is-offset", "varlink_parser/src/lib.rs", r"column: e\.location\.column,", "column: e.location.offset,", {"C12"}),
 ]
 
 
